@@ -404,7 +404,7 @@ def c18_f(ctx):
 
 
 def _has_guard(ctx, fn, node, pats, pol):
-    for (t, p, _) in ctx.guards(fn, node):
+    for (t, p, _) in ctx.guards(fn, node, all_dominating=True):
         if p == pol and match_any(t, pats) is not None:
             return True
     return False
